@@ -31,6 +31,14 @@ var fmtTemplates = []string{
 	"| aa bb " + strings.Repeat("L", 90) + " cc dd\n",
 	"a {\n\t| one two " + strings.Repeat("M", 85) + " three\n\t| four " + strings.Repeat("N", 120) + "\n}\n",
 	"| " + strings.Repeat("w ", 30) + strings.Repeat("X", 81) + " tail words here\n| next line " + strings.Repeat("Y", 100) + " end\n",
+	// (round 3, classes of the second batch of seeded changes, pinned) empty array literals in every position
+	"a = []\n", "a += []\n", "a = [] // c\n", "a = [[], 1]\n", "a = [1, [], [[]]]\nb = 2\n", "t \"s\" {\n\tk += []\n}\n",
+	// runs of empty description lines between paragraphs and at the end of a description
+	"| a\n|\n|\n|\n| b\n", "| a\n|\n|\n|\n|\n|\n| b\n|\n|\n", "| a\n|\n|\n", "b {\n\t| p\n\t|\n\t|   \n\t|\n\t| q\n\t|\n\t|\n\t|\n}\n", "|\n|\n|\n| a\n|\n|\n|\n",
+	// two fragments sharing a line where the second runs on over more lines, followed directly by a statement / the end
+	"a {\n} /* x\ny */\nz = 1\n", "a {\n} /* x\ny */", "/* c */ a = \"x\\\ny\"\nb = 1\n", "/* c */ a = \"x\\\ny\\\nz\"", "a {\n} | d1\n| d2\n| d3\nk = 1\n", "x = 1 /* p\nq\nr */\n",
+	// a multi-line block comment as the last fragment of the file, with and without a final newline
+	"x = 1\n/* a\nb\nc */\n", "x = 1\n/* a\nb\nc */", "/* only\ncomment */", "a {\n}\n\n/* commented out\nblock {\n}\n*/\n\n", "x = 1\n/* a\n\n\nb */   \n",
 }
 
 func fmtInputs(cfg *vh.Config, label string, nGen, nCorpus, nSeq int) []fmtInput {
@@ -62,6 +70,10 @@ func fmtInputs(cfg *vh.Config, label string, nGen, nCorpus, nSeq int) []fmtInput
 			out = append(out, fmtInput{sb.String(), "deep", nDeep < 12 || cfg.Tier == "thorough"})
 			nDeep++
 		}
+	}
+	// the byte level: valid multi-byte and every kind of invalid UTF-8 in every literal kind (pinned)
+	for i, s := range utf8Corpus() {
+		out = append(out, fmtInput{s, "utf8", cfg.Tier == "thorough" || i%3 == int(cfg.Seed%3)})
 	}
 	corpus := loadCorpus()
 	for i, f := range corpus {
